@@ -284,30 +284,31 @@ mutual
     | fuel + 1, ctx, d, cs =>
       match skipLC cs with
       | [] => .none []
-      | '\\' :: rest =>
-        -- `consume_raw_char_if(is_escapable)`: line continuations disabled
-        match rest with
-        | c :: rest' =>
-          if escapable ctx d c then .ok (.backslashed c) rest' else .ok (.literal '\\') rest
-        | [] => .ok (.literal '\\') []
-      | '$' :: rest =>
-        -- `dollar_unit`: raw_param, braced_param, arithmetic_expansion, command_substitution
-        match skipLC rest with
-        | c :: r =>
-          if isSpecialParamChar c then .ok (.rawParam [c]) r
-          else if isAsciiDigit c then .ok (.rawParam [c]) r
-          else if isNameChar c then
-            let (n, r') := takeName fuel r
-            .ok (.rawParam (c :: n)) r'
-          else if c = '{' then lexBraced fuel ctx r
-          else if c = '(' then .err                    -- `$(…)`, `$((…))`: not modelled
-          else if d.test '$' then .none ('$' :: c :: r) else .ok (.literal '$') (c :: r)
-        | [] => if d.test '$' then .none ['$'] else .ok (.literal '$') []
-      | '`' :: rest =>
-        match lexBackquoteUnits ctx fuel rest with
-        | some (us, r) => .ok (.backquote us) r
-        | none => .err
-      | c :: rest => if d.test c then .none (c :: rest) else .ok (.literal c) rest
+      | c0 :: rest =>
+        if c0 = '\\' then
+          -- `consume_raw_char_if(is_escapable)`: line continuations disabled
+          match rest with
+          | c :: rest' =>
+            if escapable ctx d c then .ok (.backslashed c) rest' else .ok (.literal '\\') rest
+          | [] => .ok (.literal '\\') []
+        else if c0 = '$' then
+          -- `dollar_unit`: raw_param, braced_param, arithmetic_expansion, command_substitution
+          match skipLC rest with
+          | c :: r =>
+            if isSpecialParamChar c then .ok (.rawParam [c]) r
+            else if isAsciiDigit c then .ok (.rawParam [c]) r
+            else if isNameChar c then
+              let (n, r') := takeName fuel r
+              .ok (.rawParam (c :: n)) r'
+            else if c = '{' then lexBraced fuel ctx r
+            else if c = '(' then .err                    -- `$(…)`, `$((…))`: not modelled
+            else if d.test '$' then .none ('$' :: c :: r) else .ok (.literal '$') (c :: r)
+          | [] => if d.test '$' then .none ['$'] else .ok (.literal '$') []
+        else if c0 = '`' then
+          match lexBackquoteUnits ctx fuel rest with
+          | some (us, r) => .ok (.backquote us) r
+          | none => .err
+        else if d.test c0 then .none (c0 :: rest) else .ok (.literal c0) rest
 
   /-- `WordLexer::braced_param` after `${` (with `length_prefix`, `suffix_modifier`, `switch`, `trim`) -/
   def lexBraced : Nat → Ctx → List Char → Res TextUnit
